@@ -28,8 +28,13 @@ RULE = ("(i) exhaustive: every tripwire kind (17: attribute hooks, __class__ pro
 ASSUMPTIONS = ["injected failures are Exception subclasses", "records on the `monkeytype` logging channel are not program output",
                "hooks implemented in C cannot be journaled"]
 
-_handler = logging.NullHandler()
+# the `monkeytype` logging channel is configured the way an application configures logging: a handler that FORMATS every
+# record (into a sink that is not program output). Formatting is where a log call's arguments get str()/repr()'d.
+_sink = io.StringIO()
+_handler = logging.StreamHandler(_sink)
+_handler.setFormatter(logging.Formatter("%(asctime)s %(name)s %(levelname)s %(message)s"))
 logging.getLogger("monkeytype").addHandler(_handler)
+logging.getLogger("monkeytype").setLevel(logging.DEBUG)
 logging.getLogger("monkeytype").propagate = False
 
 
@@ -93,9 +98,16 @@ def run_wl(name, name2, role, traced, k=0, fail_log_at=(), fail_flush=False, pro
                 restored=after is prev, flushes=lg.flushes, ntraces=len(lg.traces), nlog=lg.n)
 
 
-def classify(entry, role):
+CALLABLE_TRIPWIRES = {"CallableObj", "M1cls", "H1cls", "CtorCls"}
+
+
+def classify(entry, role, name=None):
     """signature of a hook the tracer ran on a program object; names the protocol, attribute and role"""
     proto, attr, label = entry
+    if attr in ("__code__", "__wrapped__") and role != "global" and name is not None and name not in CALLABLE_TRIPWIRES:
+        # the listed finding is about a global named like the function and about CALLABLE locals of caller frames; probing an
+        # object that is not even callable is something else
+        return f"C03/hook:{proto}:{attr}/non-callable-object/role={role}"
     if proto.startswith("meta "):
         # building Union[...] / List[...] hashes and compares the *classes* of traced values
         return "C03/metaclass-hash-eq-of-value-class"
@@ -107,13 +119,15 @@ def classify(entry, role):
     return f"C03/hook:{proto}:{attr or '-'}/role={role}"
 
 
-def compare(ctx, spec, a, b, role, faults=False):
+def compare(ctx, spec, a, b, role, faults=False, name=None):
+    _sink.seek(0)
+    _sink.truncate()
     if (a["res"], a["exc"], a["out"]) != (b["res"], b["exc"], b["out"]):
         return ctx.fail("C03/behaviour-differs", spec, f"untraced res={a['res']} exc={a['exc']} out={a['out']!r}; traced res={b['res']} exc={b['exc']} out={b['out']!r}", raise_=False)
     extra = collections.Counter(b["journal"]) - collections.Counter(a["journal"])
     missing = collections.Counter(a["journal"]) - collections.Counter(b["journal"])
     for e in sorted(set(extra)):
-        ctx.fail(classify(e, role), spec, f"tracing ran user hook {e} x{extra[e]} on a program object (role {role})", raise_=False)
+        ctx.fail(classify(e, role, name), spec, f"tracing ran user hook {e} x{extra[e]} on a program object (role {role})", raise_=False)
     if missing:
         ctx.fail("C03/behaviour-differs", spec, f"hooks the program runs untraced are missing when traced: {dict(missing)}", raise_=False)
     if not b["restored"]:
@@ -132,7 +146,7 @@ def tripwire_table(ctx):
                 a = run_wl(name, name2, role, False, k)
                 b = run_wl(name, name2, role, True, k)
                 ctx.case(spec, True, ["tripwire:" + name, "role:" + role])
-                compare(ctx, spec, a, b, role)
+                compare(ctx, spec, a, b, role, name=name)
 
 
 def fault_table(ctx, max_calls):
@@ -170,7 +184,7 @@ def inspection_fault_table(ctx):
                 a = run_wl(name, "TList", role, False, 0, (), False, False, exit_exc, True)
                 b = run_wl(name, "TList", role, True, 0, (), False, False, exit_exc, True)
                 ctx.case(spec, True, ["fault-plan", "inspection-fault=True", "inspection-fault-role:" + role])
-                compare(ctx, spec, a, b, role, faults=True)
+                compare(ctx, spec, a, b, role, faults=True, name=name)
 
 
 # ---- synthesised programs with tripwire arguments --------------------------------------------------
@@ -241,7 +255,7 @@ def run(ctx):
 def replay(ctx, case):
     if case[0] == "TRIP":
         _, name, name2, role, k = case
-        compare(ctx, case, run_wl(name, name2, role, False, k), run_wl(name, name2, role, True, k), role)
+        compare(ctx, case, run_wl(name, name2, role, False, k), run_wl(name, name2, role, True, k), role, name=name)
     elif case[0] == "FAULT":
         _, name, role, fl, ff, ee, pr, ra = case
         a = run_wl(name, "TList", role, False, 0, (), False, pr, ee, ra)
